@@ -317,6 +317,82 @@ fn hostile_for_subject(ctx: &mut Ctx, acc: &mut Acc, id: &str, plan: &Plan, c05:
     }
 }
 
+/// Readers with an error-swallowing hand-written codec (`Tolerant<T>` fields inside evolved records and variants):
+/// the library is handed back control after one of its own nested decodes has failed.  Inputs are valid encodings of
+/// the paired writer (same, older and newer version of the lenient field), tampered; each is copied into an
+/// allocation of exactly its length, so that the sanitizer of the lane sees any read behind it.  Only totality (C05)
+/// and memory safety (the lane's sanitizer, C19) are judged: what a lenient reader makes of damaged data is its own
+/// business.
+pub fn tolerant_workload(ctx: &mut Ctx, acc: &mut Acc, judge: bool) {
+    let n_pairs = ctx.reg.tolerant.len();
+    for pi in 0..n_pairs {
+        if pi % ctx.shards != ctx.shard {
+            continue;
+        }
+        let (writer_id, reader_id) = {
+            let (w, r) = &ctx.reg.tolerant[pi];
+            (w.clone(), r.id().to_string())
+        };
+        let Some(w) = ctx.reg.get(&writer_id) else {
+            acc.inconclusive(format!("tolerant reader {reader_id}: writer {writer_id} is not registered"));
+            continue;
+        };
+        let r = ctx.reg.tolerant[pi].1.as_ref();
+        let wty = w.ty();
+        let mut prev: Vec<u8> = vec![0];
+        let mut budget_hits = 0u32;
+        for vi in 0..ctx.n(150, 4000) {
+            let mut rng = ctx.rng_for(0x701E, &reader_id, vi ^ ((pi as u64) << 40));
+            let v = gen_val(&wty, &mut rng, &ctx.gen);
+            let Some((_x, bytes)) = encode_case(acc, w, &v) else { continue };
+            if bytes.len() > 16 * 1024 {
+                continue;
+            }
+            let annots = ref_annotate(&wty, &bytes).map(|(_, _, a)| a).unwrap_or_default();
+            let mut inputs: Vec<(&'static str, Vec<u8>)> = vec![("valid", bytes.clone())];
+            for _ in 0..24 {
+                if let Some((class, t)) = tamper(&bytes, &annots, &prev, &mut rng) {
+                    inputs.push((class, t));
+                }
+            }
+            if !bytes.is_empty() {
+                let k = rng.below(bytes.len() as u64) as usize;
+                inputs.push(("truncate", bytes[..k].to_vec()));
+            }
+            for (class, t) in inputs {
+                if budget_hits >= 64 {
+                    acc.count("inputs_skipped_after_repeated_budget_exhaustion");
+                    continue;
+                }
+                let exact: Box<[u8]> = t.as_slice().into();
+                if ctx.crumb.active() {
+                    ctx.crumb.set(&format!(
+                        "{{\"check\":\"{}\",\"subject\":{},\"what\":\"tolerant:{}\",\"len\":{},\"hex\":\"{}\"}}",
+                        ctx.check,
+                        J::s(&reader_id).to_string(),
+                        class,
+                        exact.len(),
+                        refmodel::hex(&exact)
+                    ));
+                }
+                let j = judge_total(acc, r, class, &exact, judge);
+                if matches!(j.real, Call::StepBudget(_)) {
+                    budget_hits += 1;
+                }
+                match &j.real {
+                    Call::Ok(v) if v.render(1 << 16).contains("<lenient:failed>") => acc.count("tolerant:nested_failure_survived"),
+                    Call::Ok(_) => acc.count("tolerant:decoded_in_full"),
+                    _ => acc.count("tolerant:rejected"),
+                }
+                acc.case(Some(sig(&[reader_id.as_bytes(), &exact])));
+                acc.count(&format!("tolerant:{class}"));
+            }
+            prev = bytes;
+        }
+        acc.count("tolerant_reader_writer_pairs");
+    }
+}
+
 /// inputs that are always run: the witnesses of known findings and of repaired defects
 fn pinned_cases(ctx: &mut Ctx, acc: &mut Acc, c05: bool, c06: bool) {
     if ctx.shard != 0 {
@@ -351,6 +427,11 @@ fn pinned_cases(ctx: &mut Ctx, acc: &mut Acc, c05: bool, c06: bool) {
         // D4: constructor index beyond the declaration
         ("DeepEnum", vec![0x00, 0x09]),
         ("DeepEnum", vec![0x00, 0xff, 0xff, 0xff, 0xff, 0x0f]),
+        // a name removed and re-added: data of the version in between (header: chunk 0 of 4 bytes, `x` removed)
+        ("ReusedName", vec![0x01, 0x08, 0x03, 0x02, b'x', 0, 0, 0, 5]),
+        ("ReusedNameOpt", vec![0x01, 0x08, 0x03, 0x02, b'x', 0, 0, 0, 5]),
+        // … and of the version before the removal
+        ("ReusedName", vec![0x00, 0, 0, 0, 5, 0, 0, 0, 6]),
     ];
     for (id, bytes) in cases {
         if ctx.reg.get(id).is_none() {
@@ -370,7 +451,10 @@ fn pinned_cases(ctx: &mut Ctx, acc: &mut Acc, c05: bool, c06: bool) {
 
 pub fn c05(ctx: &mut Ctx, acc: &mut Acc) -> i32 {
     pinned_cases(ctx, acc, true, false);
-    let ids: Vec<String> = ctx.my_subjects(|_| true).iter().map(|s| s.id().to_string()).collect();
+    let mut ids: Vec<String> = ctx.my_subjects(|_| true).iter().map(|s| s.id().to_string()).collect();
+    if ctx.shard == 0 && !ctx.only_fresh() {
+        ids.extend(ctx.reg.hostile_only.iter().map(|s| s.id().to_string()));
+    }
     let core_only = ctx.extra.get("exhaustive3").map(|v| v == "1").unwrap_or(false);
     for id in ids {
         let cat = ctx.is_catalogue(&id);
@@ -393,13 +477,17 @@ pub fn c05(ctx: &mut Ctx, acc: &mut Acc) -> i32 {
     }
     if !core_only {
         crate::inputs::hostile_ops(ctx, acc, "C05");
+        tolerant_workload(ctx, acc, true);
     }
     0
 }
 
 pub fn c06(ctx: &mut Ctx, acc: &mut Acc) -> i32 {
     pinned_cases(ctx, acc, false, true);
-    let ids: Vec<String> = ctx.my_subjects(|_| true).iter().map(|s| s.id().to_string()).collect();
+    let mut ids: Vec<String> = ctx.my_subjects(|_| true).iter().map(|s| s.id().to_string()).collect();
+    if ctx.shard == 0 && !ctx.only_fresh() {
+        ids.extend(ctx.reg.hostile_only.iter().map(|s| s.id().to_string()));
+    }
     for id in ids {
         let cat = ctx.is_catalogue(&id);
         let plan = Plan {
@@ -447,6 +535,8 @@ pub fn c19(ctx: &mut Ctx, acc: &mut Acc) -> i32 {
         }
         acc.count("types_with_unsafe_decode_paths");
     }
+    // the library regaining control after a nested failure, under the sanitizer of the lane
+    tolerant_workload(ctx, acc, false);
     0
 }
 
